@@ -25,7 +25,23 @@ TestTypes == <<WInt, WFloat, IF_, WStr, WVoid, WBool, WAny,
                WTup(<<WInt, WInt>>), WTup(<<WInt, WInt, WInt>>), WTup(<<WInt, WAny>>), WTup(<<WAny, WAny>>),
                WMulti(<<WTup(<<WInt, WInt>>), WTup(<<WInt, WInt, WInt>>)>>),
                StA, StAB, WStruct(<<>>), WFn(<<>>, WInt), WFn(<<WInt>>, WInt), WMut(WInt), WMut(IF_),
-               WMulti(<<WInt, WArr(WInt)>>), WTup(<<WArr(WInt), WInt>>)>>
+               WMulti(<<WInt, WArr(WInt)>>), WTup(<<WArr(WInt), WInt>>),
+               \* a struct type next to another member / inside a tuple: matched by WIDER struct values
+               WMulti(<<StA, WInt>>), WTup(<<StA, WInt>>)>>
+
+\* an operation on the bound name y that only a value of the test type supports (parallel to TestTypes): the
+\* selected branch USES the binder, so that a checker / folder that binds y to a value of another type goes wrong
+Y == V("y")
+TestUse == <<Bin("+", Y, I(1)), Bin("+", Y, F(1)), Y, Bin("+", Y, S(<<115>>)), Y, NotE(Y), Y,
+             Bin("+", Y, ArrE(<<I(1)>>)), Bin("+", Y, ArrE(<<F(1)>>)), Bin("+", Y, Y), Bin("+", Y, Y), Y, Bin("+", Y, Y),
+             Bin("+", TupAt(Y, 0), TupAt(Y, 1)), Bin("+", TupAt(Y, 0), TupAt(Y, 2)), Bin("+", TupAt(Y, 0), I(1)), TupAt(Y, 1),
+             TupAt(Y, 1),
+             Bin("+", Field(Y, "a"), I(1)), Bin("+", Field(Y, "a"), Field(Y, "b")), Y, Bin("+", CallE(Y, <<>>), I(1)), Bin("+", CallE(Y, <<I(1)>>), I(1)),
+             Bin("+", Deref(Y), I(1)), Deref(Y),
+             Y, Bin("+", TupAt(Y, 0), ArrE(<<TupAt(Y, 1)>>)),
+             Y, Bin("+", Field(TupAt(Y, 0), "a"), TupAt(Y, 1))>>
+ASSUME Len(TestUse) = Len(TestTypes)
+UseOf(ty) == TestUse[CHOOSE i \in 1..Len(TestTypes) : TestTypes[i] = ty]
 
 \* value expressions (evaluated at top level, then passed through `any')
 Vals == <<I(1), I(2), F(5), S(<<115>>), S(<<116>>), Unit, B(TRUE),
@@ -40,7 +56,10 @@ Vals == <<I(1), I(2), F(5), S(<<115>>), S(<<116>>), Unit, B(TRUE),
           TupE(<<ArrE(<<I(1)>>), I(2)>>), TupE(<<ArrE(<<>>), I(2)>>),
           StructE(<< <<"a", I(1)>> >>), StructE(<< <<"a", I(1)>>, <<"b", I(2)>> >>), StructE(<<>>), StructE(<< <<"a", F(5)>> >>),
           FnE(<<>>, WInt, <<Ret(I(1))>>), FnE(<<P("q", WInt)>>, WInt, <<Ret(V("q"))>>), FnE(<<P("q", WAny)>>, WInt, <<Ret(I(1))>>),
-          MutE(WInt, I(1)), MutE(IF_, I(1))>>
+          MutE(WInt, I(1)), MutE(IF_, I(1)),
+          Hide(WMulti(<<StAB, WInt>>), StructE(<< <<"a", I(1)>>, <<"b", I(2)>> >>)),
+          TupE(<<StructE(<< <<"a", I(1)>>, <<"b", I(2)>> >>), I(1)>>),
+          Hide(WMulti(<<WTup(<<StAB, WInt>>), WInt>>), TupE(<<StructE(<< <<"a", I(1)>>, <<"b", I(2)>> >>), I(1)>>))>>
 NV == Len(Vals)
 \* the static type of each value expression: the typed forms pass the value through a parameter of exactly this type
 \* (or this type | ()), so that the checker KNOWS a lot about the scrutinee and may decide tests early — it must
@@ -51,7 +70,8 @@ ValTy == <<WInt, WInt, WFloat, WStr, WStr, WVoid, WBool,
            WTup(<<WInt, WInt>>), WTup(<<WInt, WInt, WInt>>), WTup(<<WInt, WStr>>), WTup(<<WInt, WFloat>>),
            WTup(<<WArr(WInt), WInt>>), WTup(<<WArr(WNever), WInt>>),
            StA, StAB, WStruct(<<>>), WStruct(<< <<"a", WFloat>> >>),
-           WFn(<<>>, WInt), WFn(<<WInt>>, WInt), WFn(<<WAny>>, WInt), WMut(WInt), WMut(IF_)>>
+           WFn(<<>>, WInt), WFn(<<WInt>>, WInt), WFn(<<WAny>>, WInt), WMut(WInt), WMut(IF_),
+           WMulti(<<StAB, WInt>>), WTup(<<StAB, WInt>>), WMulti(<<WTup(<<StAB, WInt>>), WInt>>)>>
 ASSUME Len(ValTy) = NV
 
 Test(form, ty) ==
@@ -64,20 +84,31 @@ Test(form, ty) ==
                 <<Set("n", MutE(WInt, I(0))),
                   WhileSet("y", ty, V("v"), Block(<<Asg("+=", V("n"), I(1)), If1(Bin(">", Deref(V("n")), I(0)), Break)>>)),
                   Ret(Deref(V("n")))>>)
-Forms == <<"ifset", "match", "match-after-value", "whileset", "ifset-typed", "match-typed", "ifset-typedu">>
+Forms == <<"ifset", "match", "match-after-value", "whileset", "ifset-typed", "match-typed", "ifset-typedu", "ifset-top", "match-top">>
 IsTyped(form) == form \in {"ifset-typed", "match-typed", "ifset-typedu"}
+\* the scrutinee is a NAME of the enclosing scope (a constant in the constant twin): the test may be decided while
+\* checking / folding, and must be decided like the run-time test
+IsTop(form) == form \in {"ifset-top", "match-top"}
+TopTest(form, ty, i) ==
+  LET v == Hide(ValTy[i], V("v" \o ToString(i)))     \* hidden here, a constant in the constant twin
+      body == Block(<<Set("u", UseOf(ty)), I(1)>>) IN
+  Set("r" \o ToString(i),
+      IF form = "match-top" THEN Match(v, <<ArmTy("y", ty, body), ArmOther(I(0))>>)
+      ELSE IfSet("y", ty, v, body, Block(<<I(0)>>)))
 TypedTest(form, ty, i) ==
   LET pt == IF form = "ifset-typedu" THEN WMulti(<<ValTy[i], WVoid>>) ELSE ValTy[i]
       nm == "tst" \o ToString(i) IN
   IF form = "match-typed"
-  THEN FnDecl(nm, <<P("v", pt)>>, WInt, <<Match(V("v"), <<ArmTy("y", ty, Ret(I(1))), ArmOther(Ret(I(0)))>>), Ret(I(2))>>)
-  ELSE FnDecl(nm, <<P("v", pt)>>, WInt, <<IfSet("y", ty, V("v"), Ret(I(1)), NoneV), Ret(I(0))>>)
+  THEN FnDecl(nm, <<P("v", pt)>>, WInt, <<Match(V("v"), <<ArmTy("y", ty, Block(<<Set("u", UseOf(ty)), Ret(I(1))>>)), ArmOther(Ret(I(0)))>>), Ret(I(2))>>)
+  ELSE FnDecl(nm, <<P("v", pt)>>, WInt, <<IfSet("y", ty, V("v"), Block(<<Set("u", UseOf(ty)), Ret(I(1))>>), NoneV), Ret(I(0))>>)
 
 Bindings == [i \in 1..NV |-> Set("v" \o ToString(i), Vals[i])]
 \* forwards, then backwards: the same test instruction sees every run-time type after every other one
 Order == [i \in 1..NV |-> i] \o [i \in 1..NV |-> NV + 1 - i]
 Prog(form, ty) ==
-  IF IsTyped(form)
+  IF IsTop(form)
+  THEN Bindings \o [i \in 1..NV |-> TopTest(form, ty, i)] \o <<TupE([j \in 1..Len(Order) |-> V("r" \o ToString(Order[j]))])>>
+  ELSE IF IsTyped(form)
   THEN Bindings \o [i \in 1..NV |-> TypedTest(form, ty, i)]
        \o <<TupE([j \in 1..Len(Order) |-> CallE(V("tst" \o ToString(Order[j])), <<V("v" \o ToString(Order[j]))>>)])>>
   ELSE
@@ -101,6 +132,64 @@ TypeTestLaw == row > 0 =>
   \/ (o.status = "value" /\ \A j \in 1..Len(Order) : o.v.es[j].v = Expected(row, r, j))
   \/ (PrintT(<<"TYPETEST", Cases[row], o>>) /\ FALSE)
 
+\* ---------------------------------------------------------------- selection with operands known early
+\* Value arms compared with RUN-TIME values under a scrutinee that is a constant; guards whose excluded branch would
+\* fail if it were evaluated (division by the guarded zero, index past the guarded length, shift by the guarded
+\* amount).  Each comes with hidden operands (and so also as a constant twin).
+H(n) == Hide(WInt, I(n))
+XC(prog, want) == [prog |-> prog, want |-> want]
+T2V(a, b) == TupV(<<IntV(a), IntV(b)>>)
+Guard(x, safe) == If(Bin("!=", V("x"), I(0)), Block(<<Bin("/", I(10), V("x"))>>), Block(<<I(safe)>>))
+ExtraCases == <<
+  XC(<<FnDecl("cl", <<P("y", WInt)>>, WInt, <<Set("x", I(3)), Ret(Match(V("x"), <<ArmVal(<<V("y")>>, I(1)), ArmTy("n", WInt, I(2))>>))>>),
+       TupE(<<CallE(V("cl"), <<H(3)>>), CallE(V("cl"), <<H(4)>>)>>)>>, T2V(1, 2)),
+  XC(<<FnDecl("cl", <<P("y", WInt)>>, WInt, <<Ret(Match(I(3), <<ArmVal(<<I(9), V("y")>>, I(1)), ArmOther(I(2))>>))>>),
+       TupE(<<CallE(V("cl"), <<H(3)>>), CallE(V("cl"), <<H(4)>>)>>)>>, T2V(1, 2)),
+  XC(<<Set("x", H(3)), FnDecl("cl", <<P("y", WInt)>>, WInt, <<Ret(Match(V("x"), <<ArmVal(<<V("y")>>, I(1)), ArmTy("n", WInt, I(2))>>))>>),
+       TupE(<<CallE(V("cl"), <<H(3)>>), CallE(V("cl"), <<H(4)>>)>>)>>, T2V(1, 2)),
+  XC(<<Set("c", MutE(WInt, I(3))), Set("r1", Match(H(3), <<ArmVal(<<Deref(V("c"))>>, I(1)), ArmOther(I(0))>>)),
+       Asg("=", V("c"), I(4)), Set("r2", Match(H(3), <<ArmVal(<<Deref(V("c"))>>, I(1)), ArmOther(I(0))>>)), TupE(<<V("r1"), V("r2")>>)>>, T2V(1, 0)),
+  XC(<<FnDecl("three", <<>>, WInt, <<Ret(H(3))>>), Set("x", H(3)),
+       Set("r1", Match(V("x"), <<ArmVal(<<CallE(V("three"), <<>>)>>, I(1)), ArmTy("n", WInt, I(2))>>)),
+       Set("r2", Match(H(4), <<ArmVal(<<CallE(V("three"), <<>>)>>, I(1)), ArmTy("n", WInt, I(2))>>)), TupE(<<V("r1"), V("r2")>>)>>, T2V(1, 2)),
+  \* guards
+  XC(<<Set("x", H(0)), Set("r1", Guard("x", 3)), Set("x", H(2)), Set("r2", Guard("x", 3)), TupE(<<V("r1"), V("r2")>>)>>, T2V(3, 5)),
+  XC(<<Set("x", H(0)), Set("k", MutE(WInt, I(7))),
+       While(Bin("!=", V("x"), I(0)), Block(<<Asg("=", V("k"), Bin("/", I(1), V("x"))), Break>>)), TupE(<<Deref(V("k")), V("x")>>)>>, T2V(7, 0)),
+  XC(<<FnDecl("divide_by", <<P("d", WInt)>>, WFn(<<WInt>>, WInt),
+              <<Ret(FnE(<<P("n", WInt)>>, WInt, <<If1(Bin("!=", V("d"), I(0)), Ret(Bin("/", V("n"), V("d")))), Ret(I(-1))>>))>>),
+       TupE(<<CallE(CallE(V("divide_by"), <<H(0)>>), <<H(5)>>), CallE(CallE(V("divide_by"), <<H(2)>>), <<H(6)>>)>>)>>, T2V(-1, 3)),
+  XC(<<Set("x", H(0)), Set("r1", Match(V("x"), <<ArmVal(<<I(0)>>, I(3)), ArmOther(Bin("/", I(10), V("x")))>>)),
+       Set("r2", Match(V("x"), <<ArmVal(<<I(1)>>, Bin("/", I(10), Bin("-", V("x"), I(0)))), ArmOther(I(4))>>)), TupE(<<V("r1"), V("r2")>>)>>, T2V(3, 4)),
+  XC(<<Set("x", H(0)), Set("b1", AndE(Bin("!=", V("x"), I(0)), Bin(">", Bin("/", I(10), V("x")), I(1)))),
+       Set("b2", OrE(Bin("==", V("x"), I(0)), Bin(">", Bin("%", I(10), V("x")), I(1)))),
+       Set("r1", If(V("b1"), I(1), I(0))), Set("r2", If(V("b2"), I(1), I(0))), TupE(<<V("r1"), V("r2")>>)>>, T2V(0, 1)),
+  XC(<<Set("i", H(5)), Set("a", Hide(WArr(WInt), ArrE(<<I(1)>>))),
+       Set("r1", If(Bin("<", V("i"), I(1)), Block(<<At(V("a"), V("i"))>>), Block(<<I(0)>>))),
+       Set("r2", If(Bin(">=", V("i"), I(1)), Block(<<I(8)>>), Block(<<At(V("a"), V("i"))>>))), TupE(<<V("r1"), V("r2")>>)>>, T2V(0, 8)),
+  XC(<<Set("s", H(64)), Set("r1", If(Bin("<", V("s"), I(64)), Block(<<Bin("<<", I(1), V("s"))>>), Block(<<I(0)>>))),
+       Set("r2", If(Bin("<", V("s"), I(0)), Block(<<RepE(I(0), V("s"))>>), Block(<<ArrE(<<>>)>>))), TupE(<<V("r1"), V("r2")>>)>>,
+     TupV(<<IntV(0), ArrV(TNever, <<>>)>>))
+>>
+ExtraOut(i) == Outcome(Run(ExtraCases[i].prog, 3000))
+ExtraLaw == \A i \in 1..Len(ExtraCases) :
+  \/ (ExtraOut(i).status = "value" /\ ValEq(ExtraOut(i).v, ExtraCases[i].want))
+  \/ (PrintT(<<"EXTRALAW", i, ExtraOut(i)>>) /\ FALSE)
+
+\* ---------------------------------------------------------------- negative cases
+\* The name bound by a type test has the TEST type, not a narrower one: returning it where only the int member of a
+\* union test type is allowed must be refused (whatever the checker knows about the scrutinee).  If an
+\* implementation accepts such a program the run is judged by its events (the function result must belong to the
+\* declared result type) and must not panic.
+UnionTests == <<WMulti(<<StA, WInt>>), WMulti(<<WInt, WArr(WInt)>>), IF_, WMulti(<<WTup(<<WInt, WInt>>), WTup(<<WInt, WInt, WInt>>)>>)>>
+NegForm(ti, i, how) ==
+  LET ty == UnionTests[ti]
+      ret == IF how = "ret" THEN Ret(Y) ELSE Ret(Bin("+", Y, I(1)))
+      test == IF how = "ifset" THEN IfSet("y", ty, V("v"), Block(<<Ret(Y)>>), NoneV)
+              ELSE Match(V("v"), <<ArmTy("y", ty, Block(<<ret>>)), ArmOther(Block(<<Ret(I(0))>>))>>) IN
+  Bindings \o <<FnDecl("tn", <<P("v", ValTy[i])>>, WInt, <<test, Ret(I(2))>>), CallE(V("tn"), <<V("v" \o ToString(i))>>)>>
+NegSeq == SetToSeq({<<ti, i, how>> : ti \in 1..Len(UnionTests), i \in 1..NV, how \in {"ret", "plus", "ifset"}})
+
 Init == row = 0
 Next == \/ row = 0 /\ row' \in {-c : c \in 1..Chunks}
         \/ row < 0 /\ row' \in {i \in 1..N : i % Chunks = (-row) % Chunks}
@@ -110,6 +199,12 @@ Emit ==
   /\ TLCGet("stats").distinct > 0
   /\ ndJsonSerialize(IOEnv.VERIF_OUT \o "/c12t_cases.ndjson",
         [i \in 1..N |-> [id |-> "c12t-" \o Cases[i].form \o "-" \o ToString(i), suite |-> "c12t",
-                         prog |-> Prog(Cases[i].form, Cases[i].ty), exp |-> Out(i)]])
+                         prog |-> Prog(Cases[i].form, Cases[i].ty), exp |-> Out(i)]]
+        \o [i \in 1..Len(ExtraCases) |-> [id |-> "c12t-extra-" \o ToString(i), suite |-> "c12t", prog |-> ExtraCases[i].prog, exp |-> ExtraOut(i)]])
+  /\ ExtraLaw
+  /\ ndJsonSerialize(IOEnv.VERIF_OUT \o "/c12t_neg_cases.ndjson",
+        [i \in 1..Len(NegSeq) |-> [id |-> "c12t-neg-" \o ToString(i), suite |-> "c12t", negative |-> TRUE,
+                                   prog |-> NegForm(NegSeq[i][1], NegSeq[i][2], NegSeq[i][3]),
+                                   exp |-> [status |-> "rejected", v |-> VoidV, log |-> <<>>]]])
   /\ PrintT(<<"CASES", N, NV>>)
 =============================================================================
